@@ -88,6 +88,19 @@ M = [
     ('tail_uses_x1', A, "                inst = UTypeInstruction(item.line, 'auipc', rd='x6', imm=Hi(imm))", "                inst = UTypeInstruction(item.line, 'auipc', rd='x7', imm=Hi(imm))", ['C05'], 'far tail clobbers x7 / jumps through wrong reg'),
 ]
 
+# behaviour-preserving refactorings: NO check may report a violation on these (run with --controls: all 20 checks each)
+CONTROLS = [
+    ('ctl_rename_resolve_blobs', A, ["def resolve_blobs(items):", "    program = resolve_blobs(items)"], ["def merge_blobs(items):", "    program = merge_blobs(items)"], [], 'blob-stream hook disappears: fence-label fallback must take over'),
+    ('ctl_blob_without_line', A, ["        output.extend(item.data)\n\n    return output"], ["        output.extend(bytes(item.data))\n\n    return bytes(output)"], [], 'assemble returns bytes instead of bytearray'),
+    ('ctl_lru_cache_lookup_register', A, ["import abc\n", "def lookup_register(reg, compressed=False):"], ["import abc\nimport functools\n", "@functools.lru_cache(maxsize=None)\ndef lookup_register(reg, compressed=False):"], [], 'memoised register lookup'),
+    ('ctl_labels_sorted', A, ["    program = resolve_blobs(items)\n\n    return program"], ["    program = resolve_blobs(items)\n    ordered = dict(sorted(labels.items()))\n    labels.clear()\n    labels.update(ordered)\n\n    return program"], [], 'label table returned in sorted order'),
+    ('ctl_error_format', A, ["        s = 'File \"{}\", line {}\\n  {}'"], ["        s = '{}:{}: {}'"], [], 'gcc-style file:line: message'),
+    ('ctl_module_cache', A, ["def is_int(value):\n    try:\n        int(value, base=0)\n        return True\n    except:\n        return False"], ["_IS_INT_CACHE = {}\n\n\ndef is_int(value):\n    if value in _IS_INT_CACHE:\n        return _IS_INT_CACHE[value]\n    try:\n        int(value, base=0)\n        res = True\n    except:\n        res = False\n    _IS_INT_CACHE[value] = res\n    return res"], [], 'module-level memo that does not change results'),
+    ('ctl_messages_reworded', A, ["raise ValueError('12-bit immediate must be between -0x800 (-2048) and 0x7ff (2047): {}'.format(imm))"], ["raise ValueError('immediate {} does not fit in 12 bits'.format(imm))"], [], '[all] error text changed'),
+    ('ctl_dfu_poll_helper', D, ["        # poll state til not busy\n        status, state = dfu_get_status(dev)\n        while state == STATE_DFU_DNBUSY:\n            status, state = dfu_get_status(dev)\n\n        if status != STATUS_OK:\n            print()\n            raise SystemExit('error erasing page", "    print()\n    print('done!')"],
+     ["        # poll state til not busy\n        status, state = dfu_get_status(dev)\n        while state == STATE_DFU_DNBUSY:\n            time.sleep(0.001)\n            status, state = dfu_get_status(dev)\n\n        if status != STATUS_OK:\n            print()\n            raise SystemExit('error erasing page", "    print()\n    dev.ctrl_transfer(USB_ENDPOINT_OUT | USB_REQUEST_TYPE_CLASS | USB_RECIPIENT_INTERFACE, REQUEST_DFU_DNLOAD, data_or_wLength=b'', timeout=1000)\n    print('finished, leaving DFU mode')"], [], 'extra sleep, DfuSe leave request at the end, other final message'),
+]
+
 
 def run(cmd, cwd=None, env=None, timeout=1800):
     return subprocess.run(cmd, cwd=cwd, env=env, capture_output=True, text=True, timeout=timeout)
@@ -103,10 +116,13 @@ def one(mut, tier, allchecks):
             (shutil.copytree if os.path.isdir(s) else shutil.copy)(s, os.path.join(d, sub))
         p = os.path.join(d, rel)
         src = open(p).read()
-        if src.count(find) != 1 and not (note.startswith('[all]') and src.count(find) > 1):
-            res['tests'] = 'PATCH DOES NOT APPLY (%d matches)' % src.count(find)
-            return res
-        open(p, 'w').write(src.replace(find, repl))
+        edits = list(zip(find, repl)) if isinstance(find, list) else [(find, repl)]
+        for f1, r1 in edits:
+            if src.count(f1) != 1 and not (note.startswith('[all]') and src.count(f1) > 1):
+                res['tests'] = 'PATCH DOES NOT APPLY (%d matches of %r)' % (src.count(f1), f1[:40])
+                return res
+            src = src.replace(f1, r1)
+        open(p, 'w').write(src)
         r = run([PY, '-m', 'pytest', '-q', '-p', 'no:cacheprovider', '-x'], cwd=d, env=dict(os.environ, PYTHONDONTWRITEBYTECODE='1'))
         tail = r.stdout.strip().splitlines()[-1] if r.stdout.strip() else r.stderr[-100:]
         res['tests'] = 'pass' if r.returncode == 0 else 'killed by tests (%s)' % tail[:60]
@@ -129,9 +145,13 @@ def main():
     ap.add_argument('--tier', default='quick')
     ap.add_argument('--only')
     ap.add_argument('--jobs', type=int, default=3)
+    ap.add_argument('--controls', action='store_true', help='run the behaviour-preserving refactorings against all 20 checks (writes tools/CONTROLS.md)')
     ap.add_argument('--all-checks', action='store_true', help='run all 20 checks against every mutant (false-alarm matrix)')
     args = ap.parse_args()
     muts = [m for m in M if m[0] != 'include_rel_to_cwd']
+    if args.controls:
+        muts = CONTROLS
+        args.all_checks = True
     if args.only:
         muts = [m for m in muts if m[0] in args.only.split(',')]
     with cf.ThreadPoolExecutor(args.jobs) as ex:
@@ -154,7 +174,7 @@ def main():
     lines.append('expected detections missed: %d' % missed)
     out = '\n'.join(lines) + '\n'
     if not args.only:
-        open(os.path.join(HERE, 'tools', 'MUTANTS.md'), 'w').write(out)
+        open(os.path.join(HERE, 'tools', 'CONTROLS.md' if args.controls else 'MUTANTS.md'), 'w').write(out)
     print(out)
 
 
